@@ -8,6 +8,7 @@
    changes) against the zoneinfo reference and the model chain. *)
 From EAS Require Import Base Civil Time Filters Replace Producers ProdStrict Sched SchedInv SchedApi SchedProps SchedLog Compose.
 From EASGen Require Import Generated.
+From EAS Require Import ProdEarliest2 ProdGroup Compose2.
 
 Theorem C03_exec_reschedules_with_trigger_answer :
   forall E f j t s s' v,
@@ -31,3 +32,81 @@ Theorem C03_never_before_the_occurrence :
   forall E fuel hs t0 en ops s rs, run E fuel hs (init t0 en) ops = (s, rs) -> Forall not_early (log s).
 Proof. exact never_early. Qed.
 Print Assumptions C03_never_before_the_occurrence.
+
+(* Additions to props/C03.v — closed end-to-end statement for ONE undisturbed recurring job (Compose2.v).
+   Add to the imports of props/C03.v:
+     From EAS Require Import ProdEarliest2 ProdGroup Compose2.
+   Vocabulary (Compose2.v): [execs j l] executions (instant, announced) of job j in log l, oldest first;
+   [ideal q k t c ops] the reference loop of one recurring job over a history of OAdvance / OWake / OEarlyWake
+   (None iff the trigger fails to answer with an instant at some execution or another operation occurs);
+   [J s c k] job 0 Running, alone in the queue, jnext = timer = c, k queries made; [keeps_up P xs] every execution
+   happens before the occurrence following the one it serves; [c03_conclusion] the conjunction spelled out in
+   Compose2.v (all operations Done; J; executions = reference loop; strictly increasing instants, never early;
+   next run after each execution = earliest occurrence after the execution instant; keeps_up -> the announced
+   times followed by the pending next run [enumerates] the occurrence set after the creation instant). *)
+
+Theorem C03_single_job_model_is_reference_loop :
+  forall E, (forall k t v, prod E O k t = Ok v -> t < v) ->
+  forall f hs t0 key ops a1 xs k' t' c',
+    prod E O O t0 = Ok a1 ->
+    ideal (prod E O) 1 t0 a1 ops = Some (xs, (k', t', c')) ->
+    exists s, run E (S (S (S (S f)))) hs (init t0 true) (OAt key :: ops) = (s, repeat Done (S (length ops))) /\
+              J s c' k' /\ now s = t' /\ execs O (log s) = xs.
+Proof. exact single_job_exact. Qed.
+Print Assumptions C03_single_job_model_is_reference_loop.
+
+Theorem C03_reference_loop_links_executions :
+  forall q ops k t c xs k' t' c',
+    ideal q k t c ops = Some (xs, (k', t', c')) -> follows q k t c xs k' t' c'.
+Proof. exact ideal_facts. Qed.
+Print Assumptions C03_reference_loop_links_executions.
+
+Theorem C03_same_answer_inside_a_gap :
+  forall (q : nat -> Z -> result Z) P, (forall k t v, q k t = Ok v -> earliest_after P t v) ->
+  forall k k2 a t v w, a <= t -> q k a = Ok v -> t < v -> q k2 t = Ok w -> w = v.
+Proof. exact chain_consistent. Qed.
+Print Assumptions C03_same_answer_inside_a_gap.
+
+Theorem C03_single_job_keepup_enumerates :
+  forall E P f hs t0 key ops a1 xs k' t' c',
+    (forall k t v, prod E O k t = Ok v -> earliest_after P t v) ->
+    prod E O O t0 = Ok a1 ->
+    ideal (prod E O) 1 t0 a1 ops = Some (xs, (k', t', c')) ->
+    c03_conclusion E P (S (S (S (S f)))) hs t0 key ops xs k' t' c'.
+Proof. exact keepup_enumerates. Qed.
+Print Assumptions C03_single_job_keepup_enumerates.
+
+Theorem C03_single_job_at_time_trigger :
+  forall E PE tr flt f hs t0 key ops a1 xs k' t' c',
+    wf_tz_b (pz PE) = true -> wf_tr tr ->
+    (forall k t, exists st, prod E O k t = fst (get_next PE (PTime tr flt) st t)) ->
+    prod E O O t0 = Ok a1 ->
+    ideal (prod E O) 1 t0 a1 ops = Some (xs, (k', t', c')) ->
+    c03_conclusion E (occ_time (pz PE) tr flt) (S (S (S (S f)))) hs t0 key ops xs k' t' c'.
+Proof. exact at_time_trigger_enumerates. Qed.
+Print Assumptions C03_single_job_at_time_trigger.
+
+Theorem C03_single_job_at_time_interval_group_trigger :
+  forall E PE G p f hs t0 key ops a1 xs k' t' c',
+    wf_tz_b (pz PE) = true -> consistent G -> tig p -> incl (leaves p) G ->
+    (forall k t, exists st, cache_on_grid G st /\ prod E O k t = fst (get_next PE p st t)) ->
+    prod E O O t0 = Ok a1 ->
+    ideal (prod E O) 1 t0 a1 ops = Some (xs, (k', t', c')) ->
+    c03_conclusion E (occ (pz PE) p) (S (S (S (S f)))) hs t0 key ops xs k' t' c'.
+Proof. exact at_tig_trigger_enumerates. Qed.
+Print Assumptions C03_single_job_at_time_interval_group_trigger.
+
+(* the environment built from the producer model meets the hypothesis on the oracle, whatever the query instants *)
+Theorem C03_producer_environment_ok :
+  forall PE G p qs fe fc,
+    wf_tz_b (pz PE) = true -> consistent G -> tig p -> incl (leaves p) G ->
+    forall k t, exists st, cache_on_grid G st /\ prod (trigger_env PE p qs fe fc) O k t = fst (get_next PE p st t).
+Proof. exact trigger_env_ok. Qed.
+Print Assumptions C03_producer_environment_ok.
+
+Theorem C03_keeps_up_check :
+  forall (q : nat -> Z -> result Z) P xs,
+    (forall k t v, q k t = Ok v -> earliest_after P t v) ->
+    Forall (fun x => exists k v, q k (snd x) = Ok v /\ fst x < v) xs -> keeps_up P xs.
+Proof. exact keeps_up_check. Qed.
+Print Assumptions C03_keeps_up_check.
